@@ -123,7 +123,8 @@ let judge (inp : string) (obs : string) : string * string =
         if class_name (K.target_class tgt oldb newb tr) <> final then fail (name ^ ":trace-final-mismatch")
       end
     end) files;
-  if (exit_ = "0" || exit_ = "1") && left <> "0" then fail ("leftover-files=" ^ left);
+  (* left-over temporary files are compared with the model (left=0: C18_protocol proves the protocol removes its
+     temp file) but are no verdict: the property speaks of the contents of the journal files only *)
   if exit_ = "HANG" then fail "hang";
   (model, if !fails = [] then "ok" else "FAIL:" ^ String.concat "," (List.rev !fails))
 
